@@ -171,6 +171,71 @@ impl Memfs {
     }
 
     /// Convert the given VfsEntry to a MemfsEntry or fail
+    /// Verification hook: create a fully independent copy of this filesystem
+    #[cfg(rivia_verif)]
+    pub fn verif_deep_clone(&self) -> Memfs {
+        let guard = self.0.read().unwrap_or_else(|e| e.into_inner());
+        Memfs(Arc::new(RwLock::new(MemfsInner {
+            cwd: guard.cwd.clone(),
+            root: guard.root.clone(),
+            entries: guard.entries.clone(),
+            files: guard.files.iter().map(|(k, v)| (k.clone(), v.clone())).collect(),
+        })))
+    }
+
+    /// Verification hook: share this filesystem instance with another owner e.g. another thread
+    #[cfg(rivia_verif)]
+    pub fn verif_share(&self) -> Memfs {
+        self.clone()
+    }
+
+    /// Verification hook: render the complete internal state in a canonical sorted form
+    #[cfg(rivia_verif)]
+    pub fn verif_dump(&self) -> crate::verif::Dump {
+        let poisoned = self.0.is_poisoned();
+        let guard = self.0.read().unwrap_or_else(|e| e.into_inner());
+        let lossy = |x: &Path| x.to_string_lossy().into_owned();
+        let mut entries: Vec<crate::verif::EntryDump> = guard
+            .entries
+            .iter()
+            .map(|(k, v)| crate::verif::EntryDump {
+                key: lossy(k),
+                path: lossy(&v.path),
+                alt: lossy(&v.alt),
+                rel: lossy(&v.rel),
+                dir: v.dir,
+                file: v.file,
+                link: v.link,
+                mode: v.mode,
+                uid: v.uid,
+                gid: v.gid,
+                follow: v.follow,
+                cached: v.cached,
+                children: v.files.as_ref().map(|x| x.iter().cloned().sorted().collect()),
+            })
+            .collect();
+        entries.sort();
+        let mut files: Vec<crate::verif::FileDump> = guard
+            .files
+            .iter()
+            .map(|(k, v)| crate::verif::FileDump {
+                key: lossy(k),
+                data: v.data.clone(),
+                pos: v.pos,
+                path: v.path.as_ref().map(|x| lossy(x)),
+                has_fs: v.fs.is_some(),
+            })
+            .collect();
+        files.sort();
+        crate::verif::Dump {
+            cwd: lossy(&guard.cwd),
+            root: lossy(&guard.root),
+            poisoned,
+            entries,
+            files,
+        }
+    }
+
     #[allow(dead_code)]
     pub(crate) fn downcast(vfs: Vfs) -> RvResult<Memfs> {
         match vfs {
